@@ -1913,6 +1913,9 @@ static void data_hists(void)
 	/* formats without parameter letter are resolved by the save */
 	{ 2, 0, 5, 0, ".npd ri (letterless)" },
 	{ 0, 0, 5, 0, ".s2p ri (letterless)" },
+	/* no format set at all: the save installs the default one */
+	{ 2, 0, -1, 0, ".npd, no format set" },
+	{ 0, 0, -1, 0, ".s2p, no format set" },
     };
     for (size_t i = 0; i < sizeof(sl) / sizeof(sl[0]); ++i) {
 	h = new_hist('D', "vnadata: save and load %s", sl[i].what);
@@ -1927,7 +1930,8 @@ static void data_hists(void)
 	} else {
 	    ADD(h, s_dz0vec, 0, 0, "vnadata_set_z0_vector");
 	}
-	ADD(h, s_dformat, 0, sl[i].fmt, "vnadata_set_format");
+	if (sl[i].fmt >= 0)
+	    ADD(h, s_dformat, 0, sl[i].fmt, "vnadata_set_format");
 	ADD(h, s_dcksave, 0, sl[i].file, "vnadata_cksave");
 	ADD(h, s_dsave, 0, sl[i].file, "vnadata_save");
 	ADD(h, s_dalloc, 1, 0, "vnadata_alloc");
@@ -2191,6 +2195,45 @@ static int run_history(hist_t *h, long k1, long k2, obs_t *o, runinfo_t *ri,
 			    "(faults injected in this call: %d)", s, st->name,
 			    m0, nf);
 		    goto out;
+		}
+		/*
+		 * "repeating the call without the fault gives the same
+		 * result as if the fault had never happened": judged at
+		 * once, not only at the end of the history where later
+		 * steps may have overwritten the difference.  The state
+		 * after the repeated (or fault-absorbing) call is read
+		 * through every getter and compared with what the unfaulted
+		 * run showed before its next step.
+		 */
+		if ((attempts > 0 || nf > 0) && s + 1 < h->nsteps &&
+			h->pre[s + 1] != NULL && !g_record_pre &&
+			!(st->flags & F_INSERT)) {	/* F_INSERT: the open
+			   finding, judged under its own name at the end */
+		    static obs_t post_obs;
+		    long save_calls = vf_alloc_calls, f1 = vf_alloc_fail_at,
+			 f2 = vf_alloc_fail_at2;
+		    int save_failed = vf_alloc_failed;
+		    vf_alloc_fail_at = 0;
+		    vf_alloc_fail_at2 = 0;
+		    g_observe_light = 1;
+		    observe(c, &post_obs);
+		    g_observe_light = 0;
+		    vf_alloc_calls = save_calls;
+		    vf_alloc_failed = save_failed;
+		    vf_alloc_fail_at = f1;
+		    vf_alloc_fail_at2 = f2;
+		    if (obs_cmp_packed(h->pre[s + 1], &post_obs, g_why,
+				sizeof(g_why)) != 0) {
+			snprintf(sig, sizeof(sig), "state-after-repetition:%s",
+				st->name);
+			vf_fail(r, sig, "step %d (%s) %s, but the objects "
+				"are not what they are after the same call in "
+				"the unfaulted run: %s", s, st->name,
+				attempts ? "succeeded when repeated after its "
+				"ENOMEM failure" : "survived the allocation "
+				"failure", g_why);
+			goto out;
+		    }
 		}
 		break;
 	    }
